@@ -185,6 +185,10 @@ Definition keys_call (f : string) (args : list (pv obj)) : option (res (pv obj))
                             kid_key_info := ki; kid_domain := d; kid_forest := fo |})))
     | _ => None
     end
+  (* domain note (audit): CPython's pow(b, e, m) with e < 0 computes a modular inverse and math.ceil(x / y) raises OverflowError
+     when the quotient exceeds the float range; py_pow3 / py_truediv_ceil do neither. In the tied functions b, e, m are results of
+     int.from_bytes (non-negative) and the quotient is bit_length / 8 of such an integer (far below 2^1024), so the entries are only
+     ever used inside their common domain; outside it they are NOT a model of CPython. *)
   else if String.eqb f "pow" then
     match args with [VI b; VI e; VI m] => Some (let* r := py_pow3 b e m in Ok (VI r)) | _ => None end
   else if String.eqb f "hashes.SHA256" then
